@@ -62,7 +62,7 @@ func newWorker(store, tmp string) *worker {
 	be, err := storage.NewLocalBackend(store, lg)
 	must(err, "storage.NewLocalBackend")
 	var db *database.DuckDB
-	for attempt := 0; attempt < 4; attempt++ { // database.New has internal start-up timeouts that a loaded machine can exceed
+	for attempt := 0; attempt < 6; attempt++ { // database.New has internal start-up timeouts that a loaded machine can exceed
 		db, err = database.New(&database.Config{
 			MaxConnections:         2,
 			MemoryLimit:            "512MB",
@@ -72,7 +72,7 @@ func newWorker(store, tmp string) *worker {
 			UploadDir:              filepath.Join(tmp, "upload"),
 			LocalStorageRoot:       be.GetBasePath(),
 		}, lg)
-		if err == nil || !strings.Contains(err.Error(), "deadline exceeded") {
+		if err == nil || !(strings.Contains(err.Error(), "deadline exceeded") || strings.Contains(err.Error(), "Interrupted")) {
 			break
 		}
 		time.Sleep(time.Duration(attempt+1) * time.Second)
